@@ -171,6 +171,8 @@ def run(ctx):
                     c += w
                     if 0 < c < W:
                         cand.append((c, W))
+            if rng.random() < 0.3:
+                A = np.asfortranarray(A)
             for tn, td in cand:
                 if W > 0 and boundary(ws, tn, td) and not is_pow4(W):
                     continue
@@ -193,6 +195,8 @@ def run(ctx):
                 if k == 3:   # decaying spectrum
                     A = A * (0.3 ** np.arange(n))[None, :]
             tn, td = (0, 1) if rng.random() < 0.25 else (int(rng.integers(1, 1000)), 1009)
+            if rng.random() < 0.3:
+                A = np.asfortranarray(A)
             add(bondgen.record_svd(ptn, A, q0, q1, tn, td, None),
                 dict(kind='svd', q0=q0, q1=q1, tn=tn, td=td, A_re=np.real(A).tolist(), A_im=np.imag(A).tolist()),
                 nontrivial=bool(np.any(A)))
